@@ -57,6 +57,12 @@ def summarize(sc):
     return s
 
 
+def _forced_by_set(sym):
+    """An enabled `set` of another option forces this one - decided from the stored (value, condition, source) entries,
+    not from the side flag the evaluation leaves behind (which is what the code under test consults)."""
+    return any(core.expr_value(cond) for _value, cond, _source in sym.rev_values)
+
+
 class Monitor:
     def __init__(self, ctx, sparse=False):
         self.ctx = ctx
@@ -92,7 +98,7 @@ class Monitor:
                     pre["bools"][s.name] = (s.bool_value, tuple(s.assignable), s._user_value)
                 if s is not None:
                     val = s.str_value
-                    if s._has_active_indirect_set or (s.orig_type == core.BOOL and not s.choice and tuple(s.assignable) == (2,)):
+                    if _forced_by_set(s) or (s.orig_type == core.BOOL and not s.choice and tuple(s.assignable) == (2,)):
                         pre["locked"][s.name] = (val, s._user_value)
             pre["values"] = {x.name: x._user_value for x in k.unique_defined_syms}  # user values: attribute reads only
             sess.last_input = None
@@ -100,7 +106,7 @@ class Monitor:
         with simproc.quiet():
             pre["bools"] = {s.name: (s.bool_value, tuple(s.assignable), s._user_value) for s in k.unique_defined_syms if s.orig_type == core.BOOL}
             pre["locked"] = {s.name: (s.str_value, s._user_value) for s in k.unique_defined_syms
-                             if s._has_active_indirect_set or (s.orig_type == core.BOOL and not s.choice and tuple(s.assignable) == (2,))}
+                             if _forced_by_set(s) or (s.orig_type == core.BOOL and not s.choice and tuple(s.assignable) == (2,))}
             pre["values"] = {s.name: s.str_value for s in k.unique_defined_syms}
         sess.last_input = None
         return pre
@@ -156,7 +162,7 @@ class Monitor:
                     except ValueError:
                         ok = False
                     if not ok:
-                        why = ("set-locked" if sym._has_active_indirect_set else "invisible" if not sym.visibility else "visible")
+                        why = ("set-locked" if _forced_by_set(sym) else "invisible" if not sym.visibility else "visible")
                         ctx.violate(f"C17/accepted-input-not-applied/{core.TYPE_TO_STR[sym.orig_type]}/{why}",
                                     f"{where}: the validator accepted {text!r} for {sym.name} but its value is {cur!r}")
                     ctx.counters["probe:input-accepted"] += 1
